@@ -364,21 +364,35 @@ Section Read.
     destruct H as [_ Hw]. exact Hw.
   Qed.
 
+  (* limits of this reader: string lengths must fit an int64, and EVERY value
+     under the key "cert" (not only the last) must parse as a certificate *)
+  Definition entry_ok (kv : bytes * bytes) : Prop :=
+    lenN (fst kv) < two63 /\ lenN (snd kv) < two63 /\
+    (fst kv = kcert -> x509_ok (snd kv) = true).
+
   Lemma dec_entries_sound (f : nat) : forall m bs c o s c' o' s' r,
     dec_entries x509_ok f m bs c o s = Ok (c', o', s', r) ->
-    exists es, Entries m bs es r /\
+    exists es, Entries m bs es r /\ Forall entry_ok es /\
                c' = pick kcert es c /\ o' = pick kocsp es o /\ s' = pick ksct es s.
   Proof.
     induction f as [|f IH]; intros m bs c o s c' o' s' r H; [discriminate|].
     rewrite dec_entries_S in H. destruct (N.eqb_spec m 0) as [Em|Em].
-    - inversion H; subst. exists []. split; [constructor|]. repeat split.
+    - inversion H; subst. exists []. split; [constructor|]. split; [constructor|]. repeat split.
     - destruct (decode_text bs) as [[k r1]| | |] eqn:E1; cbn [bind] in H; try discriminate.
       destruct (decode_bytes r1) as [[v r2]| | |] eqn:E2; cbn [bind] in H; try discriminate.
-      destruct (bytes_eqb k kcert && negb (x509_ok v)); [discriminate|].
-      apply IH in H. destruct H as [es [HE [Hc [Ho Hs]]]].
+      destruct (bytes_eqb k kcert && negb (x509_ok v)) eqn:Ex; [discriminate|].
+      apply IH in H. destruct H as [es [HE [Hok [Hc [Ho Hs]]]]].
+      assert (Hkv : entry_ok (k, v)).
+      { unfold entry_ok. cbn [fst snd].
+        apply decode_text_iff in E1. destruct E1 as [L1 _].
+        apply (decode_bytes_of_type_iff MBytes) in E2; [|split; reflexivity].
+        destruct E2 as [L2 _]. split; [exact L1|]. split; [exact L2|].
+        intros Ek. subst k. rewrite bytes_eqb_refl in Ex. cbn [andb] in Ex.
+        destruct (x509_ok v); [reflexivity|discriminate]. }
       apply decode_text_string in E1. destruct E1 as [E1 Hu].
       apply decode_bytes_string in E2.
       exists ((k, v) :: es). split; [econstructor; eassumption|].
+      split; [constructor; assumption|].
       unfold pick in *. cbn [last_val].
       subst c' o' s'.
       repeat split.
@@ -389,16 +403,17 @@ Section Read.
 
   Lemma decode_augcert_sound (bs : bytes) (a : augcert) (r' : bytes) :
     decode_augcert x509_ok bs = Ok (a, r') ->
-    exists m r es, is_head 5 m bs r /\ Entries m r es r' /\ map_gives es a.
+    exists m r es, is_head 5 m bs r /\ Entries m r es r' /\ map_gives es a /\
+                   Forall entry_ok es.
   Proof.
     unfold decode_augcert. intros H.
     destruct (decode_map_header bs) as [[m r0]| | |] eqn:E0; cbn [bind] in H; try discriminate.
     destruct (dec_entries x509_ok (S (List.length r0)) m r0 None None None)
       as [[[[c o] s] r1]| | |] eqn:E; cbn [bind] in H; try discriminate.
     destruct c as [der|]; [|discriminate]. inversion H; subst.
-    apply dec_entries_sound in E. destruct E as [es [HE [Hc [Ho Hs]]]].
+    apply dec_entries_sound in E. destruct E as [es [HE [Hok [Hc [Ho Hs]]]]].
     apply (decode_of_type_iff MMap) in E0; [|split; reflexivity].
-    exists m, r0, es. split; [exact E0|]. split; [exact HE|].
+    exists m, r0, es. split; [exact E0|]. split; [exact HE|]. split; [|exact Hok].
     unfold map_gives, pick in *. cbn [ac_cert ac_ocsp ac_sct]. fold kcert kocsp ksct.
     repeat split.
     - destruct (last_val kcert es); [congruence|discriminate].
@@ -408,23 +423,35 @@ Section Read.
 
   Lemma dec_chain_sound (f : nat) : forall n bs acc l r,
     dec_chain x509_ok f n bs acc = Ok (l, r) ->
-    exists ms l', Maps n bs ms r /\ l = rev acc ++ l' /\ Forall2 map_gives ms l'.
+    exists ms l', Maps n bs ms r /\ l = rev acc ++ l' /\ Forall2 map_gives ms l' /\
+                  Forall (Forall entry_ok) ms.
   Proof.
     induction f as [|f IH]; intros n bs acc l r H; [discriminate|].
     rewrite dec_chain_S in H. destruct (N.eqb_spec n 0) as [En|En].
     - inversion H; subst. exists [], []. split; [constructor|].
-      split; [rewrite app_nil_r; reflexivity|constructor].
+      split; [rewrite app_nil_r; reflexivity|]. split; constructor.
     - destruct (decode_augcert x509_ok bs) as [[a r0]| | |] eqn:E; cbn [bind] in H;
         try discriminate.
-      apply IH in H. destruct H as [ms [l' [HM [El HF]]]].
-      apply decode_augcert_sound in E. destruct E as [m [r1 [es [Hh [HE Hg]]]]].
+      apply IH in H. destruct H as [ms [l' [HM [El [HF Hok]]]]].
+      apply decode_augcert_sound in E. destruct E as [m [r1 [es [Hh [HE [Hg Hes]]]]]].
       exists (es :: ms), (a :: l'). split; [econstructor; eassumption|].
-      split; [|constructor; assumption].
+      split; [|split; constructor; assumption].
       subst l. cbn [rev]. rewrite <- app_assoc. reflexivity.
   Qed.
 
-  Theorem read_sound (bs : bytes) (c : list augcert) :
-    cc_read x509_ok bs = Ok c -> ReadForm bs c.
+  Definition ReadFormOk (bs : bytes) (c : list augcert) : Prop :=
+    exists n r r1 ms rest,
+      is_head 4 n bs r /\ 2 <= n /\ is_string 3 magic r r1 /\
+      Maps (n - 1) r1 ms rest /\ Forall2 map_gives ms c /\ Forall (Forall entry_ok) ms.
+
+  Lemma ReadFormOk_ReadForm (bs : bytes) (c : list augcert) : ReadFormOk bs c -> ReadForm bs c.
+  Proof.
+    intros [n [r [r1 [ms [rest [H1 [H2 [H3 [H4 [H5 _]]]]]]]]]].
+    exists n, r, r1, ms, rest. repeat split; assumption.
+  Qed.
+
+  Theorem read_sound_strong (bs : bytes) (c : list augcert) :
+    cc_read x509_ok bs = Ok c -> ReadFormOk bs c /\ validate c = true.
   Proof.
     unfold cc_read. intros H.
     destruct (decode_array_header bs) as [[n r]| | |] eqn:E0; cbn [bind] in H; try discriminate.
@@ -433,14 +460,124 @@ Section Read.
     destruct (bytes_eqb mg cc_magic) eqn:Em; cbn [negb] in H; [|discriminate].
     destruct (dec_chain x509_ok (S (List.length r1)) (n - 1) r1 [])
       as [[c0 r2]| | |] eqn:E; cbn [bind] in H; try discriminate.
-    destruct (validate c0); [|discriminate]. inversion H; subst c0.
+    destruct (validate c0) eqn:Hv; [|discriminate]. inversion H; subst c0.
+    split; [|exact Hv].
     apply bytes_eqb_eq in Em. subst mg. rewrite <- magic_eq in E1.
     apply (decode_of_type_iff TArray) in E0; [|split; reflexivity].
     apply decode_text_string in E1. destruct E1 as [E1 _].
-    apply dec_chain_sound in E. destruct E as [ms [l' [HM [El HF]]]].
+    apply dec_chain_sound in E. destruct E as [ms [l' [HM [El [HF Hok]]]]].
     cbn [rev app] in El. subst l'.
     exists n, r, r1, ms, r2. split; [exact E0|]. split; [lia|].
-    split; [exact E1|]. split; assumption.
+    split; [exact E1|]. repeat split; assumption.
+  Qed.
+
+  Theorem read_sound (bs : bytes) (c : list augcert) :
+    cc_read x509_ok bs = Ok c -> ReadForm bs c.
+  Proof. intros H. apply ReadFormOk_ReadForm. apply read_sound_strong. exact H. Qed.
+
+  (* ================= completeness: everything of that form is accepted ========== *)
+  Lemma pick_cons (k0 k v : bytes) (es : list (bytes * bytes)) (d : option bytes) :
+    pick k0 ((k, v) :: es) d = pick k0 es (if bytes_eqb k k0 then Some v else d).
+  Proof.
+    unfold pick. cbn [last_val]. destruct (last_val k0 es); [reflexivity|].
+    destruct (bytes_eqb k k0); reflexivity.
+  Qed.
+
+  Lemma is_string_shrinks (mt : N) (s bs rest : bytes) :
+    is_string mt s bs rest -> (List.length rest < List.length bs)%nat.
+  Proof.
+    intros [w H]. destruct (shead_consumes _ _ _ _ _ H) as [h [E L]].
+    subst bs. rewrite !app_length. rewrite lenN_length in L. lia.
+  Qed.
+
+  Lemma dec_entries_complete (m : N) (bs : bytes) (es : list (bytes * bytes)) (r : bytes) :
+    Entries m bs es r -> Forall entry_ok es ->
+    forall f c o s, (List.length bs < f)%nat ->
+      dec_entries x509_ok f m bs c o s
+      = Ok (pick kcert es c, pick kocsp es o, pick ksct es s, r).
+  Proof.
+    induction 1 as [bs|m bs k v r1 r2 es rest Hm Hk Hu Hv HE IH]; intros Hok f c o s Hf;
+      (destruct f as [|f]; [lia|]); rewrite dec_entries_S.
+    - reflexivity.
+    - replace (m =? 0) with false by lia.
+      inversion Hok as [|? ? [L1 [L2 Hx]] Hok']; subst. cbn [fst snd] in *.
+      assert (E1 : decode_text bs = Ok (k, r1)).
+      { apply decode_text_iff. split; [exact L1|]. split; [exact Hu|exact Hk]. }
+      assert (E2 : decode_bytes r1 = Ok (v, r2)).
+      { apply (decode_bytes_of_type_iff MBytes); [split; reflexivity|].
+        split; [exact L2|exact Hv]. }
+      rewrite E1. cbn [bind]. rewrite E2. cbn [bind].
+      assert (Ex : bytes_eqb k kcert && negb (x509_ok v) = false).
+      { destruct (bytes_eqb k kcert) eqn:Ek; [|reflexivity].
+        apply bytes_eqb_eq in Ek. rewrite (Hx Ek). reflexivity. }
+      rewrite Ex. rewrite !pick_cons. apply IH; [exact Hok'|].
+      apply is_string_shrinks in Hk. apply is_string_shrinks in Hv. lia.
+  Qed.
+
+  Lemma Entries_len (m : N) (bs : bytes) (es : list (bytes * bytes)) (r : bytes) :
+    Entries m bs es r -> (List.length r <= List.length bs)%nat.
+  Proof.
+    induction 1 as [bs|m bs k v r1 r2 es rest Hm Hk Hu Hv HE IH]; [lia|].
+    apply is_string_shrinks in Hk. apply is_string_shrinks in Hv. lia.
+  Qed.
+
+  Lemma decode_augcert_complete (bs r r' : bytes) (m : N) (es : list (bytes * bytes))
+        (a : augcert) :
+    is_head 5 m bs r -> Entries m r es r' -> Forall entry_ok es -> map_gives es a ->
+    decode_augcert x509_ok bs = Ok (a, r').
+  Proof.
+    intros Hh HE Hok [G1 [G2 G3]]. unfold decode_augcert.
+    assert (E0 : decode_map_header bs = Ok (m, r)).
+    { apply (decode_of_type_iff MMap); [split; reflexivity|exact Hh]. }
+    rewrite E0. cbn [bind].
+    rewrite (dec_entries_complete m r es r' HE Hok) by lia. cbn [bind].
+    unfold pick. fold kcert kocsp ksct in G1, G2, G3. rewrite G1, G2, G3.
+    destruct a as [ce o s]. cbn [ac_cert ac_ocsp ac_sct].
+    destruct o; destruct s; reflexivity.
+  Qed.
+
+  Lemma is_head_shrinks (mt n : N) (bs rest : bytes) :
+    is_head mt n bs rest -> (List.length rest < List.length bs)%nat.
+  Proof.
+    intros [w H]. destruct (shead_consumes _ _ _ _ _ H) as [h [E L]].
+    subst bs. rewrite !app_length. rewrite lenN_length in L. lia.
+  Qed.
+
+  Lemma dec_chain_complete (n : N) (bs : bytes) (ms : list (list (bytes * bytes))) (rest : bytes) :
+    Maps n bs ms rest -> forall l, Forall2 map_gives ms l -> Forall (Forall entry_ok) ms ->
+    forall f acc, (List.length bs < f)%nat ->
+      dec_chain x509_ok f n bs acc = Ok (rev acc ++ l, rest).
+  Proof.
+    induction 1 as [bs|n bs m r es r' ms rest Hn Hh HE HM IH]; intros l HF Hok f acc Hf;
+      (destruct f as [|f]; [lia|]); rewrite dec_chain_S.
+    - inversion HF; subst. rewrite app_nil_r. reflexivity.
+    - replace (n =? 0) with false by lia.
+      inversion HF as [|? a ? l' Hg HF']; subst. inversion Hok as [|? ? Hes Hok']; subst.
+      rewrite (decode_augcert_complete bs r r' m es a Hh HE Hes Hg). cbn [bind].
+      rewrite (IH l' HF' Hok'); [cbn [rev]; rewrite <- app_assoc; reflexivity|].
+      apply is_head_shrinks in Hh. apply Entries_len in HE. lia.
+  Qed.
+
+  Theorem read_complete (bs : bytes) (c : list augcert) :
+    ReadFormOk bs c -> validate c = true -> cc_read x509_ok bs = Ok c.
+  Proof.
+    intros [n [r [r1 [ms [rest [H1 [H2 [H3 [H4 [H5 H6]]]]]]]]]] Hv. unfold cc_read.
+    assert (E0 : decode_array_header bs = Ok (n, r)).
+    { apply (decode_of_type_iff TArray); [split; reflexivity|exact H1]. }
+    rewrite E0. cbn [bind]. replace (n <? 2) with false by lia.
+    assert (E1 : decode_text r = Ok (magic, r1)).
+    { apply decode_text_iff. split; [rewrite magic_bytes; vm_compute; reflexivity|].
+      split; [exact magic_utf8|exact H3]. }
+    rewrite E1. cbn [bind]. rewrite magic_eq, bytes_eqb_refl. cbn [negb].
+    rewrite (dec_chain_complete _ _ _ _ H4 c H5 H6) by lia.
+    cbn [bind rev app]. rewrite Hv. reflexivity.
+  Qed.
+
+  (* exactly the accepted inputs *)
+  Theorem read_iff (bs : bytes) (c : list augcert) :
+    cc_read x509_ok bs = Ok c <-> (ReadFormOk bs c /\ validate c = true).
+  Proof.
+    split; [apply read_sound_strong|]. intros [H1 H2]. apply read_complete; assumption.
   Qed.
 
   (* the number of maps read is the number of certificates returned *)
